@@ -74,10 +74,14 @@ RO_RAW = [("managed_objects", "uid", "Unique Identifier"),
           ("keys", "cryptographic_algorithm", "Cryptographic Algorithm"),
           ("keys", "cryptographic_length", "Cryptographic Length")]
 
-NAME_POOL = ["n0", "n1", "n2", "n3", "n4", "n5", {"v": "u6", "t": "URI"}]
-GROUP_POOL = ["g0", "g1", "g2", "g3"]
+# the last two entries of each pool are canonically equivalent Unicode spellings of one visible
+# text (decomposed / composed): attribute values are code point sequences, and a stored value
+# reads back as it was written
+NAME_POOL = ["n0", "n1", "n2", "n3", "n4", "n5", {"v": "u6", "t": "URI"}, "ne\u0301", "n\u00e9"]
+GROUP_POOL = ["g0", "g1", "g2", "g3", "g\u212b", "g\u00c5"]
 ASI_POOL = [{"ns": "a", "data": "d0"}, {"ns": "a", "data": "d1"}, {"ns": "b", "data": "d0"},
-            {"ns": "b", "data": "d2"}, {"ns": "a", "data": ""}, {"ns": "", "data": "d0"}]
+            {"ns": "b", "data": "d2"}, {"ns": "a", "data": ""}, {"ns": "", "data": "d0"},
+            {"ns": "a", "data": "do\u0308"}, {"ns": "a", "data": "d\u00f6"}]
 POOLS = {"Name": NAME_POOL, "Object Group": GROUP_POOL, "Application Specific Information": ASI_POOL}
 MASKS = [None, 0, 0, 12, F.ALL_MASK]
 # attribute samples a KMIP 2.0 request can carry (the library cannot encode the others by tag)
@@ -831,7 +835,7 @@ def _ix(draw):
 def _val(draw, name):
     if name == "Sensitive":
         return draw(st.sampled_from([["same"], ["flip"], ["lit", True], ["lit", False]]))
-    return [draw(st.sampled_from(["cur", "pool", "pool"])), draw(st.integers(0, 6))]
+    return [draw(st.sampled_from(["cur", "pool", "pool"])), draw(st.integers(0, 8))]
 
 
 def _item(draw, nobj, v):
@@ -871,7 +875,7 @@ def _item(draw, nobj, v):
     if cls == "Sensitive":
         curs = [["same"], ["same"], ["flip"]]
     else:
-        curs = [["cur", draw(st.integers(0, 5))]] * 3 + [["pool", draw(st.integers(0, 6))]]
+        curs = [["cur", draw(st.integers(0, 5))]] * 3 + [["pool", draw(st.integers(0, 8))]]
     if f == "del2cur":
         return {"f": f, "t": t, "name": cls, "cur": draw(st.sampled_from(curs))}
     cur = draw(st.sampled_from(curs * 2 + [None, None]
@@ -887,9 +891,9 @@ def gen_history(draw, max_steps=25):
     for _ in range(nobj):
         objs.append({
             "otype": draw(st.sampled_from(H.OBJECT_TYPES)),
-            "names": draw(st.lists(st.integers(0, 6), min_size=draw(sizes), max_size=3, unique=True)),
-            "groups": draw(st.lists(st.integers(0, 3), min_size=draw(sizes), max_size=3)),
-            "asi": draw(st.lists(st.integers(0, 5), min_size=draw(sizes), max_size=3, unique=True)),
+            "names": draw(st.lists(st.integers(0, 8), min_size=draw(sizes), max_size=3, unique=True)),
+            "groups": draw(st.lists(st.integers(0, 5), min_size=draw(sizes), max_size=3)),
+            "asi": draw(st.lists(st.integers(0, 7), min_size=draw(sizes), max_size=3, unique=True)),
             "mask": draw(st.sampled_from(MASKS)),
             "sensitive": draw(st.sampled_from([None, False, False, True])),
             "owner": draw(st.sampled_from(["alice", "alice", "alice", "bob"])),
